@@ -17,7 +17,7 @@ THEOREM_MODULES = ["Yarel.Props.C11", "Yarel.Props.ModelLimits"]
 REQUIRED_THEOREMS = ["intern_id_iff_bytes", "inv_reachable", "find_fuel_enough"]
 # the state the models abstract is all the state there is: the fields of the run-time structures, regenerated on every run, are the ones
 # the models were written against (Props/StateInventory)
-THEOREM_MODULES.append("Yarel.Props.StateInventory")
+THEOREM_MODULES.append("Yarel.Props.StateInventory.state_of_strings_and_maps")
 REQUIRED_THEOREMS += ['state_of_strings_and_maps']
 LEVEL = "proof"
 ASSUMPTIONS = [
